@@ -47,13 +47,21 @@ def kconfig_text(assign: dict) -> str:
     """role -> (vendor, class) as sysbuild Kconfig lines.  The file FORM varies from call to call: comment and blank lines, CRLF
     line ends (a configuration written on Windows), no newline after the last line."""
     KCONF_CALLS[0] += 1
-    form = KCONF_CALLS[0] % 4
+    form = (KCONF_CALLS[0] * 5 + KCONF_CALLS[0] // 4 + KCONF_CALLS[0] // 16) % 4   # not periodic in step with the callers' loops
     lines = ["CONFIG_SOMETHING=y", "SB_CONFIG_OTHER=0x10"]
     if form == 1:
         lines += ["", "# SB_CONFIG_SUIT_MPI_APP_LOCAL_3 is not set", "#"]
     for role, (v, c) in assign.items():
+        if form == 1:   # an old value kept as a comment BEFORE the live assignment
+            lines.append(f'# SB_CONFIG_SUIT_MPI_{KCONF_ROLE(role)}_CLASS_NAME="commented out before"')
         lines.append(f'SB_CONFIG_SUIT_MPI_{KCONF_ROLE(role)}_VENDOR_NAME="{v}"')
         lines.append(f'SB_CONFIG_SUIT_MPI_{KCONF_ROLE(role)}_CLASS_NAME="{c}"')
+        if form in (1, 3):   # ... and AFTER it (a reader that takes assignments from anywhere in a line lets the last one win)
+            lines.append(f'# SB_CONFIG_SUIT_MPI_{KCONF_ROLE(role)}_VENDOR_NAME="commented out after"')
+            lines.append(f'#SB_CONFIG_SUIT_MPI_{KCONF_ROLE(role)}_CLASS_NAME="commented out after"')
+    if form == 1:   # a role that is ONLY mentioned in a comment is not configured at all
+        lines.append('# SB_CONFIG_SUIT_MPI_APP_LOCAL_3_VENDOR_NAME="nordicsemi.com"')
+        lines.append('# SB_CONFIG_SUIT_MPI_APP_LOCAL_3_CLASS_NAME="only in a comment"')
     nl = "\r\n" if form == 2 else "\n"
     return nl.join(lines) + ("" if form == 3 else nl)
 
